@@ -50,6 +50,19 @@ def make_decoder(kind, code, knobs=None):
     return RotatedSweepDecoder3D(code, noise, 0.1, **knobs)
 
 
+def drive_tiebreaks(dec, rng_obj):
+    """Put the scheduler-driven generator in place of the decoder's private
+    numpy Generator, whatever the attribute is called."""
+    n = 0
+    for name, val in list(vars(dec).items()):
+        if isinstance(val, np.random.Generator):
+            setattr(dec, name, rng_obj)
+            n += 1
+    if n == 0:
+        dec._rng = rng_obj
+    return n
+
+
 class SchedRng:
     """Scheduler-driven stand-in for the decoder's private Generator: same
     `choice` signature and return types, the seeded stream decides."""
@@ -189,7 +202,7 @@ def run_trajectories(plan, sim, code, rc, faces, violate, stats, states):
     for ei, err in enumerate(plan['errors']):
         if dec is None or not reuse:
             dec = make_decoder(plan['decoder'], code, plan.get('knobs'))
-            dec._rng = SchedRng(trng, sim)
+            drive_tiebreaks(dec, SchedRng(trng, sim))
             real = dec.sweep_move
         elif ei > 0:
             sim.probe('decoder_reused_for_next_decode')
@@ -294,7 +307,7 @@ def run_interleaved(plan, sim, code, rc, faces, violate, stats, states):
     n = rc.n
     face_set = set(faces)
     dec = make_decoder(plan['decoder'], code, plan.get('knobs'))
-    dec._rng = SchedRng(stream(plan['seed'], 'tiebreak'), sim)
+    drive_tiebreaks(dec, SchedRng(stream(plan['seed'], 'tiebreak'), sim))
     srng = stream(plan['seed'], 'interleave')
     runs = []
     allow_x = False
